@@ -28,13 +28,15 @@ pub enum Kind {
     Late,
     /// the same with another state cell after the conditional one
     LateMem,
+    /// reads `samplerate` (host state that a swap must carry over)
+    SrPhase,
 }
 
 /// Kinds used for generation. `Kind::Gate` (stateful calls in both arms of an `if`) is NOT in this
 /// list: on the pinned tree the VM underflows its state position on such programs (panic with
 /// overflow checks, heap corruption / abort without) even in a fault-free run. That is a crash of
 /// an accepted program (C03/C05 territory, not claimed here) and would only kill workers.
-pub const ALL_KINDS: [Kind; 16] = [
+pub const ALL_KINDS: [Kind; 17] = [
     Kind::Counter,
     Kind::Leaky,
     Kind::Lag2,
@@ -51,6 +53,7 @@ pub const ALL_KINDS: [Kind; 16] = [
     Kind::CntMem,
     Kind::Late,
     Kind::LateMem,
+    Kind::SrPhase,
 ];
 
 #[derive(Clone, Copy, Debug, PartialEq, Serialize, Deserialize)]
@@ -118,6 +121,7 @@ impl Voice {
             Kind::CntMem => "cntmem".into(),
             Kind::Late => "late".into(),
             Kind::LateMem => "latemem".into(),
+            Kind::SrPhase => "srphase".into(),
         };
         base
     }
@@ -135,7 +139,7 @@ impl Voice {
     pub fn args(&self) -> Vec<String> {
         let x = self.input.render();
         match self.kind {
-            Kind::Counter => vec![lit(self.p[0])],
+            Kind::Counter | Kind::SrPhase => vec![lit(self.p[0])],
             Kind::Leaky => vec![x, lit(self.p[0])],
             Kind::Lag2 | Kind::Mfb | Kind::Mmf => vec![x],
             Kind::Echo => vec![x, lit(self.p[0])],
@@ -245,6 +249,10 @@ impl Voice {
                 "mmf".into(),
                 "fn mmf(x){\n  let a = mem(x)\n  let b = mem(a)\n  self * 0.25 + b\n}".into(),
             )],
+            Kind::SrPhase => vec![(
+                "srphase".into(),
+                "fn srphase(f){\n  self + f / samplerate\n}".into(),
+            )],
             Kind::Late => vec![
                 cnt,
                 (
@@ -298,7 +306,7 @@ pub struct Model {
 impl Model {
     pub fn zero(v: &Voice) -> Model {
         let ns = match v.kind {
-            Kind::Counter | Kind::Leaky | Kind::Clk => 1,
+            Kind::Counter | Kind::Leaky | Kind::Clk | Kind::SrPhase => 1,
             Kind::Lag2 | Kind::Mfb | Kind::Pair | Kind::Nest | Kind::CntMem | Kind::Late => 2,
             Kind::Gate | Kind::Wide | Kind::Deep | Kind::Mmf | Kind::LateMem => 3,
             Kind::Echo => 0,
@@ -339,13 +347,17 @@ impl Model {
     }
 
     /// Advance one sample; returns the channel value.
-    pub fn step(&mut self, v: &Voice, t: u64, dsp_in: &[f64]) -> f64 {
+    pub fn step(&mut self, v: &Voice, t: u64, dsp_in: &[f64], sample_rate: f64) -> f64 {
         let x = v.input.eval(t, dsp_in);
         let now = t as f64;
         let p = v.p;
         match v.kind {
             Kind::Counter => {
                 self.s[0] += p[0];
+                self.s[0]
+            }
+            Kind::SrPhase => {
+                self.s[0] += p[0] / sample_rate;
                 self.s[0]
             }
             Kind::Leaky => {
@@ -476,6 +488,7 @@ pub fn gen_voice(rng: &mut Rng, id: u32, kind: Kind, n_in: u32, max_delay: u32) 
         Kind::Counter | Kind::Pair | Kind::Nest | Kind::Deep | Kind::CntMem | Kind::Wide | Kind::Clk => {
             p[0] = small(rng)
         }
+        Kind::SrPhase => p[0] = *rng.pick(&[110.0, 440.0, 1000.0, 12000.0]),
         Kind::Leaky => p[0] = gain(rng),
         Kind::Late | Kind::LateMem => {
             p[0] = small(rng);
@@ -514,7 +527,7 @@ pub fn gen_voice(rng: &mut Rng, id: u32, kind: Kind, n_in: u32, max_delay: u32) 
 /// has no editable constant.
 pub fn tweak_constant(rng: &mut Rng, v: &mut Voice) -> bool {
     match v.kind {
-        Kind::Counter | Kind::Pair | Kind::Nest | Kind::Deep | Kind::CntMem | Kind::Wide | Kind::Clk => {
+        Kind::Counter | Kind::Pair | Kind::Nest | Kind::Deep | Kind::CntMem | Kind::Wide | Kind::Clk | Kind::SrPhase => {
             v.p[0] += (rng.range(1, 8) as f64) * 0.25;
             true
         }
